@@ -310,6 +310,81 @@ def run_streams(scs, tag):
     return None, parse_blocks(open(outp).read())
 
 
+# ----------------------------------------------------------------------------- intra-proxy receiver hand-over
+def intra_scenarios(rng, n):
+    res = [
+        ["IR blocked", "REG 1 1", "MSG 1", "MSG 2", "MSG 3", "W", "CLOSE 1", "REM 1", "W", "REG 2 8", "W", "END"],
+        ["IR idle", "REG 1 8", "MSG 1", "W", "CLOSE 1", "REM 1", "MSG 2", "REG 2 8", "W", "END"],
+        ["IR closedwindow", "REG 1 8", "CLOSE 1", "MSG 1", "W", "REM 1", "REG 2 8", "W", "END"],
+        ["IR overwrite", "REG 1 1", "MSG 1", "MSG 2", "W", "REG 2 8", "CLOSE 1", "REM 1", "W", "END"],
+        ["IR blockedlate", "REG 1 1", "MSG 1", "MSG 2", "W", "CLOSE 1", "W", "W", "REM 1", "REG 2 8", "MSG 3", "W", "END"],
+    ]
+    for k in range(n):
+        ev = ["IR r%d" % k, "REG 1 %d" % rng.range(1, 3)]
+        live, inc, mid = 1, 1, 0
+        for _ in range(rng.range(3, 9)):
+            r = rng.below(100)
+            if r < 45:
+                mid += 1
+                ev.append("MSG %d" % mid)
+            elif r < 60 and live is not None:
+                ev.append("TAKE %d %d" % (live, rng.range(1, 2)))
+            elif r < 85 and live is not None:
+                # the sender's stream is re-established: close / remove / register in one of the orders the code allows
+                ev.append("W")
+                inc += 1
+                order = rng.below(4)
+                if order == 3:
+                    # a batch arrives while the dead incarnation's closed channel is still registered
+                    mid += 1
+                    ev += ["CLOSE %d" % live, "MSG %d" % mid, "W", "REM %d" % live, "REG %d %d" % (inc, rng.range(1, 4))]
+                elif order == 0:
+                    ev += ["CLOSE %d" % live, "REM %d" % live, "REG %d %d" % (inc, rng.range(1, 4))]
+                elif order == 1:
+                    ev += ["CLOSE %d" % live, "W", "REM %d" % live, "W", "REG %d %d" % (inc, rng.range(1, 4))]
+                else:
+                    ev += ["REG %d %d" % (inc, rng.range(1, 4)), "CLOSE %d" % live, "REM %d" % live]
+                live = inc
+            else:
+                ev.append("W")
+        ev += ["W", "END"]
+        res.append(ev)
+    return res
+
+
+def intra_monitor(ev, lines):
+    bad = []
+    sent = [int(e.split()[1]) for e in ev if e.startswith("MSG ")]
+    got = [(int(l.split()[1]), int(l.split()[2])) for l in lines if l.startswith("GOT ")]
+    lost = [int(l.split()[2]) for l in lines if l.startswith("LOST ")]
+    seen = sorted([i for _, i in got] + lost)
+    if seen != sorted(sent):
+        missing = [i for i in sent if i not in seen]
+        dup = sorted(set(i for i in seen if seen.count(i) > 1))
+        bad.append("batches sent by the peer %s; taken by an incarnation %s, gone down with a closed one %s: never handed over %s, handed over twice %s" % (sent, [i for _, i in got], lost, missing, dup))
+    order = [i for _, i in got]
+    if order != sorted(order):
+        bad.append("batches reached the senders out of order: %s" % got)
+    for l in lines:
+        if l.startswith("PANIC"):
+            bad.append(l[:200])
+        if l.startswith("END") and l.strip() != "END returned=1":
+            bad.append("the receiver did not return after shutdown: " + l)
+    return bad
+
+
+def run_intra(scs, tag):
+    inp = os.path.join(V.WORK, "c08i_%s.in" % tag)
+    outp = os.path.join(V.WORK, "c08i_%s.out" % tag)
+    open(inp, "w").write("".join("\n".join(s) + "\n" for s in scs))
+    if os.path.exists(outp):
+        os.remove(outp)
+    rc, out = V.go_test("proxy", ["zz_verif_fakes_test.go", "zz_verif_intrarecv_test.go"], "^TestVerifIntraRecv$", env={"VERIF_IN": inp, "VERIF_OUT": outp}, timeout=900)
+    if rc != 0 or not os.path.exists(outp):
+        return "intra-proxy receiver harness failed:\n" + out[-3000:], None
+    return None, parse_blocks(open(outp).read())
+
+
 # ----------------------------------------------------------------------------- check
 def check(tier, seed):
     ck = V.Check(PROP, tier, seed)
@@ -398,6 +473,31 @@ def check(tier, seed):
                 ck.notes.append("whole-stream scenario %s flagged once and not reproduced in 3 re-runs (timing): %s" % (ev[0], b[0][:200]))
     ck.obligation("whole streams (real sender/receiver pairs re-established with overlap): registries = live pairs at quiescence, watermarks and acknowledgements flow through the newest pair, "
                   "all handlers return once every stream ended", not smon, "; ".join(b[0] for _, b in smon[:3]))
+    # --- the intra-proxy receiver's hand-over across reconnects of the target shard's sender (real time, monitor only)
+    irs = intra_scenarios(rng, 12 if tier == "quick" else 200)
+    ierr, ires = run_intra(irs, "main")
+    imon = []
+    if ierr:
+        ck.obligation("intra-proxy hand-over run", False, ierr[:1500])
+        ck.violation({"kind": "harness", "log": ierr, "broken": "C08 intra-proxy receiver harness"}, "harness failed: " + ierr[:300], no_input=True)
+        return ck.finish()
+    for sc in irs:
+        b = intra_monitor(sc, ires.get(sc[0].split()[1], []))
+        if b:
+            again = 0
+            for _ in range(3):
+                e2, r2 = run_intra([sc], "retry")
+                if not e2 and intra_monitor(sc, r2.get(sc[0].split()[1], [])):
+                    again += 1
+            if again:
+                imon.append((sc, b))
+            else:
+                ck.notes.append("intra-proxy hand-over scenario %s flagged once and not reproduced in 3 re-runs (timing): %s" % (sc[0], b[0][:200]))
+    ck.obligation("intra-proxy receiver: across reconnects of the target shard's sender (channel closed, removed, successor registered, in every order, receiver blocked on a full buffer or not) "
+                  "every batch from the peer is taken exactly once, in order, by an incarnation that was live (%d scenarios)" % len(irs), not imon, "; ".join(b[0] for _, b in imon[:3]))
+    if imon and not mon and not smon:
+        sc, b = imon[0]
+        ck.violation({"kind": "intra", "events": sc, "impl": ires.get(sc[0].split()[1], []), "verdict": b[0]}, b[0][:300])
     ck.cov.update({"evaluations": nsched + len(sscs), "distinct_nontrivial": len(scs) + len(sscs), "traces_validated_against_impl": nsched,
                    "schedules_explored": nsched, "scenarios_exhaustive": nexh, "scenarios": len(scs), "stream_scenarios": len(sscs)})
     ck.samples = [{"scenario": scs[0][0], "impl": impl.get(scs[0][0], [])[:6], "model": model.get(scs[0][0], [])[:6]}]
@@ -443,6 +543,16 @@ def replay(data):
         err, res = run_streams([data["history"]], "replay")
         print(err or "the process survives this scenario on the current tree")
         return 1 if err else 0
+    if data.get("kind") == "intra":
+        err, res = run_intra([data["events"]], "replay")
+        if err:
+            print(err)
+            return 1
+        lines = res.get(data["events"][0].split()[1], [])
+        print("\n".join(lines))
+        bad = intra_monitor(data["events"], lines)
+        print("MONITOR", bad)
+        return 1 if bad else 0
     if data.get("kind") == "streams":
         bad = []
         for _ in range(5):
